@@ -77,16 +77,32 @@ pub fn verif_clone_block_id(b: &BlockId) -> (r: BlockId) ensures r == *b { unimp
 
 // ---------------------------------------------------------------- C20 specification (from the statement)
 // "a deterministic function of the parent's commitment ..., with unknown parents falling back to the parent block hash":
-// the parent's COMPUTED state if this node executed it (by full id if known, else the in-progress block of that slot),
-// else the parent block hash, else genesis
+// the parent's COMPUTED state if this node executed it, else the parent block hash, else genesis.
+// "This node executed block id": it is tracked under its full id, or under its slot alone (dissemination path, hash unknown
+// while it streams) and its hash is not known to differ.  Until finding F29 the slot-only entry matched ANY id of that slot:
+// with an equivocating leader the sibling this node happened to receive stood in for a parent it had never seen.
+pub open spec fn spec_lookup(blocks: Map<InProgressBlock, BlockExec>, id: BlockId) -> Option<BlockExec> {
+    if blocks.contains_key(InProgressBlock::Known(id)) { Some(blocks[InProgressBlock::Known(id)]) }
+    else if blocks.contains_key(InProgressBlock::Pending(id.0))
+        && (blocks[InProgressBlock::Pending(id.0)].block_hash is None || blocks[InProgressBlock::Pending(id.0)].block_hash == Some(id.1))
+        { Some(blocks[InProgressBlock::Pending(id.0)]) }
+    else { None }
+}
 pub open spec fn spec_seed(blocks: Map<InProgressBlock, BlockExec>, parent: Option<BlockId>) -> Hash {
     match parent {
         None => spec_genesis_hash().0,
-        Some(p) =>
-            if blocks.contains_key(InProgressBlock::Known(p)) { blocks[InProgressBlock::Known(p)].state_hash }
-            else if blocks.contains_key(InProgressBlock::Pending(p.0)) { blocks[InProgressBlock::Pending(p.0)].state_hash }
-            else { p.1.0 },
+        Some(p) => match spec_lookup(blocks, p) { Some(e) => e.state_hash, None => p.1.0 },
     }
+}
+// end_block(id): the slot-only entry of id's slot learns its hash (if it has none yet and id is not tracked by full id)
+pub open spec fn spec_record_hash(blocks: Map<InProgressBlock, BlockExec>, id: BlockId) -> Map<InProgressBlock, BlockExec> {
+    let k = InProgressBlock::Pending(id.0);
+    if !blocks.contains_key(InProgressBlock::Known(id)) && blocks.contains_key(k) && blocks[k].block_hash is None {
+        blocks.insert(k, BlockExec { tx_count: blocks[k].tx_count, state_hash: blocks[k].state_hash, block_hash: Some(id.1) })
+    } else { blocks }
+}
+pub open spec fn spec_own_hash(id: InProgressBlock) -> Option<BlockHash> {
+    match id { InProgressBlock::Pending(_) => None, InProgressBlock::Known(b) => Some(b.1) }
 }
 
 pub mod code {
@@ -103,29 +119,38 @@ pub assume_specification<T, U, F: FnOnce(T) -> U>[ Option::<T>::map_or ](o: Opti
 broadcast use super::axiom_InProgressBlock_obeys_cmp_laws;
 
 impl DummyExecution {
+/*@ extract src/execution.rs :: impl DummyExecution/fn lookup
+props C20
+ret r
+rewrite*[R9] `block_id.clone()` => `verif_clone_block_id(block_id)`
+ensures
+        // [C20.a_sibling_of_the_same_slot_is_not_the_block]
+        r == (match spec_lookup(self.blocks@, *block_id) { Some(e) => Some(&e), None => None::<&BlockExec> }),
+@*/
+
 /*@ extract src/execution.rs :: impl ExecutionEngine for DummyExecution/fn begin_block
 props C20
-rewrite*[R9] `p.clone()` => `verif_clone_block_id(p)`
 rewrite[R9] `|(_, block_hash)| block_hash` => `|verif_p: BlockId| verif_p.1`
 ensures
         // [C20.block_state_seeded_from_parent_commitment_or_parent_hash]
-        final(self).blocks@ == old(self).blocks@.insert(id, BlockExec { tx_count: 0, state_hash: spec_seed(old(self).blocks@, parent) }),
+        final(self).blocks@ == old(self).blocks@.insert(id, BlockExec { tx_count: 0, state_hash: spec_seed(old(self).blocks@, parent), block_hash: spec_own_hash(id) }),
+        // [C20.unknown_parent_falls_back_to_its_block_hash] in particular when the block this node executed in the parent's slot is
+        // known to be another one (an equivocating leader's other block)
+        (parent matches Some(p) && !old(self).blocks@.contains_key(InProgressBlock::Known(p)) && old(self).blocks@.contains_key(InProgressBlock::Pending(p.0))
+            && (old(self).blocks@[InProgressBlock::Pending(p.0)].block_hash matches Some(h) && h != p.1))
+            ==> final(self).blocks@[id].state_hash == (parent->0).1.0,
 closure 0
         params p: &BlockId
         ret o: Option<&BlockExec>
-        ensures o == (if self.blocks@.contains_key(InProgressBlock::Known(*p)) { Some(&self.blocks@[InProgressBlock::Known(*p)]) }
-                      else if self.blocks@.contains_key(InProgressBlock::Pending(p.0)) { Some(&self.blocks@[InProgressBlock::Pending(p.0)]) } else { None })
+        ensures o == (match spec_lookup(self.blocks@, *p) { Some(e) => Some(&e), None => None::<&BlockExec> })
 closure 1
-        ret o: Option<&BlockExec>
-        ensures o == (if self.blocks@.contains_key(InProgressBlock::Pending(p.0)) { Some(&self.blocks@[InProgressBlock::Pending(p.0)]) } else { None })
-closure 2
         params exec: &BlockExec
         ret h: Hash
         ensures h == exec.state_hash
-closure 3
+closure 2
         ret h: Hash
         ensures h == (match parent { None => spec_genesis_hash().0, Some(pp) => pp.1.0 })
-closure 4
+closure 3
         ret b: BlockHash
         ensures b == verif_p.1
 @*/
@@ -141,12 +166,13 @@ ensures
         // [C20.commitment_is_the_fold_of_the_transaction_sequence]
         old(self).blocks@.contains_key(id) ==> final(self).blocks@ == old(self).blocks@.insert(id, BlockExec {
             tx_count: (old(self).blocks@[id].tx_count + transactions@.len()) as usize,
-            state_hash: spec_fold(old(self).blocks@[id].state_hash, transactions@) }),
+            state_hash: spec_fold(old(self).blocks@[id].state_hash, transactions@),
+            block_hash: old(self).blocks@[id].block_hash }),
         !old(self).blocks@.contains_key(id) ==> final(self).blocks@ == old(self).blocks@,
 loop 0
         invariant
             verif_t <= transactions@.len(),
-            exec.tx_count == h0.tx_count,
+            exec.tx_count == h0.tx_count, exec.block_hash == h0.block_hash,
             exec.state_hash == spec_fold(h0.state_hash, transactions@.subrange(0, verif_t as int)),
         decreases transactions@.len() - verif_t,
 before `let mut verif_t: usize = 0;`
@@ -165,22 +191,19 @@ after `exec.tx_count += transactions.len();`
 /*@ extract src/execution.rs :: impl ExecutionEngine for DummyExecution/fn end_block
 props C20
 rewrite*[R9] `block_id.clone()` => `verif_clone_block_id(&block_id)`
+rewrite[R8] `self.blocks.get_mut(&InProgressBlock::Pending(block_id.0))` => `verif_blocks_get_mut(&mut self.blocks, &InProgressBlock::Pending(block_id.0))`
 rewrite[R8] `self.event_sender .try_send(ExecutionEvent::BlockExecuted { block_id, result: Ok(result), }) .expect("execution event channel should have capacity and a live receiver");` => `self.event_sender.verif_send(ExecutionEvent::BlockExecuted { block_id, result: Ok(result), });`
 rewrite[R9] `exec.state_hash.clone().into()` => `StateCommitment(exec.state_hash.clone())`
 ensures
-        final(self).blocks == old(self).blocks,
-        // [C20.reported_commitment_is_the_computed_state_of_that_block] by full id if known, else the in-progress block of that slot
-        (old(self).blocks@.contains_key(InProgressBlock::Known(block_id)) || old(self).blocks@.contains_key(InProgressBlock::Pending(block_id.0))) ==> ({
-            let e = if old(self).blocks@.contains_key(InProgressBlock::Known(block_id)) { old(self).blocks@[InProgressBlock::Known(block_id)] } else { old(self).blocks@[InProgressBlock::Pending(block_id.0)] };
+        // [C20.hash_of_a_streamed_block_is_recorded_when_it_ends] the block tracked under its slot alone gets this hash, once, unless the
+        // id belongs to a block tracked under its full id; nothing else changes
+        final(self).blocks@ == spec_record_hash(old(self).blocks@, block_id),
+        // [C20.reported_commitment_is_the_computed_state_of_that_block] of the block with THIS id, not of a sibling in its slot
+        spec_lookup(final(self).blocks@, block_id) matches Some(e) ==>
             final(self).event_sender.sent() == old(self).event_sender.sent().push(ExecutionEvent::BlockExecuted {
-                block_id, result: Ok(ExecutionResult { tx_count: e.tx_count, state_commitment: StateCommitment(e.state_hash) }) })
-        }),
-        !(old(self).blocks@.contains_key(InProgressBlock::Known(block_id)) || old(self).blocks@.contains_key(InProgressBlock::Pending(block_id.0)))
-            ==> final(self).event_sender.sent() == old(self).event_sender.sent(),
+                block_id, result: Ok(ExecutionResult { tx_count: e.tx_count, state_commitment: StateCommitment(e.state_hash) }) }),
+        spec_lookup(final(self).blocks@, block_id) is None ==> final(self).event_sender.sent() == old(self).event_sender.sent(),
 closure 0
-        ret o: Option<&BlockExec>
-        ensures o == (if self.blocks@.contains_key(InProgressBlock::Pending(block_id.0)) { Some(&self.blocks@[InProgressBlock::Pending(block_id.0)]) } else { None })
-closure 1
         params exec: &BlockExec
         ret res: ExecutionResult
         ensures res == (ExecutionResult { tx_count: exec.tx_count, state_commitment: StateCommitment(exec.state_hash) })
@@ -190,10 +213,9 @@ closure 1
 /*@ extract src/execution.rs :: impl ExecutionEngine for DummyExecution/fn begin_block
 as canary_begin_block
 expect-fail
-rewrite*[R9] `p.clone()` => `verif_clone_block_id(p)`
 rewrite[R9] `|(_, block_hash)| block_hash` => `|verif_p: BlockId| verif_p.1`
 ensures
-        final(self).blocks@ == old(self).blocks@.insert(id, BlockExec { tx_count: 0, state_hash: spec_genesis_hash().0 }),
+        final(self).blocks@ == old(self).blocks@.insert(id, BlockExec { tx_count: 0, state_hash: spec_genesis_hash().0, block_hash: spec_own_hash(id) }),
 @*/
 }
 
